@@ -498,6 +498,8 @@ func datalogSource(pa biscuit.ParsedAuthorizer) (string, bool) {
 				st = st[:len(st)-2]
 				if x == biscuit.BinaryPrefix {
 					st = append(st, a+".starts_with("+b+")")
+				} else if x == biscuit.BinaryRegex {
+					st = append(st, a+".matches("+b+")")
 				} else if tk, found := binTok[x]; found {
 					st = append(st, a+" "+tk+" "+b)
 				} else {
